@@ -2,6 +2,7 @@
 from hypothesis import strategies as st
 
 from pw_verif import strategies as S
+from pw_verif.harness import Violation
 from pw_verif.props._machine import run_program_case, worker_init  # noqa: F401
 
 PROP = "C17"
@@ -29,7 +30,30 @@ ASSUMPTIONS = ["reference self-tests passed", "which exception class is raised i
 
 
 @st.composite
+def _refused_construction_case(draw):
+    """an Operation is built and applied, the construction of another one is refused (required parameter missing),
+    and the first object is applied again"""
+    spec, layout = draw(S.world_and_layout(need_ce=True, min_envs=2, max_joint=400))
+    info = S.Info(spec, layout)
+    mem = info.ce_members.get("ce0", [])
+    cs = S.comp_op(info, mem) if len(mem) >= 2 else None
+    if cs is not None and draw(st.integers(0, 3)) > 0:
+        c = draw(cs)
+        first = dict(k="op", entry="ce0", targets=c["targets"], op=c["op"])
+    else:
+        first = draw(S.step(info, ["op"]))
+    inj = dict(k="invalid", fault="missing_param", entry="state", targets=[draw(st.sampled_from(info.subs))], seed=draw(S.seeds), mode=draw(st.sampled_from([6, 7, 6, 7, 0, 2, 4])), nops=2)
+    again = dict(first, reuse=True)
+    if len(first["targets"]) > 1 and draw(st.booleans()):
+        again["targets"] = list(draw(st.permutations(first["targets"])))
+    tail = [draw(S.step(info, ["op", "comp", "measure"])) for _ in range(draw(st.integers(0, 2)))]
+    return dict(spec=spec, layout=layout, contraction=draw(st.booleans()), steps=[first, inj, again] + tail, inject_at=1)
+
+
+@st.composite
 def _case(draw):
+    if draw(st.integers(0, 7)) == 0:
+        return draw(_refused_construction_case())
     fault = draw(st.sampled_from(FAULTS))
     spec, layout = draw(S.world_and_layout(partial_ce=(fault == "outside_container"), need_ce=True if fault == "outside_container" else None,
                                            min_envs=2 if fault == "outside_container" else 1))
@@ -60,7 +84,10 @@ def _case(draw):
         if fault == "annihilate_vacuum":
             # make the target's block hold the all-zero basis state, so that the mode is an exact vacuum
             t0 = ts[0]
-            spec["envs"][int(t0[1:].split(".")[0])]["fock"] = 0
+            if t0.startswith("b"):
+                spec["bare"][int(t0[1:])]["fock"] = 0       # a Fock space that belongs to no envelope
+            else:
+                spec["envs"][int(t0[1:].split(".")[0])]["fock"] = 0
             for b in layout:
                 if t0 in b["members"]:
                     b["state"]["cls"] = "basis0"
@@ -82,8 +109,12 @@ def _case(draw):
         entry = draw(st.sampled_from(es)) if es else "state"
         if entry == "state":
             ts = ts[:1]
-        inj = dict(k="invalid", fault=fault, entry=entry, targets=ts, seed=draw(S.seeds), mode=draw(st.integers(0, 5)), nops=draw(st.integers(2, 3)))
+        inj = dict(k="invalid", fault=fault, entry=entry, targets=ts, seed=draw(S.seeds), mode=draw(st.integers(0, 7)), nops=draw(st.integers(2, 3)))
     cont = [draw(S.step(info, ["op", "kraus", "measure", "struct", "comp", "trace_out"])) for _ in range(draw(st.integers(1, 3)))]
+    # objects built before the refused request are used again after it
+    ops_before = [p_ for p_ in prefix if p_.get("k") == "op"]
+    if ops_before and draw(st.booleans()):
+        cont.insert(0, dict(draw(st.sampled_from(ops_before)), reuse=True))
     return dict(spec=spec, layout=layout, contraction=draw(st.booleans()), steps=prefix + [inj] + cont, inject_at=len(prefix))
 
 
@@ -94,5 +125,18 @@ def strategy(tier):
 def run_case(case):
     r = run_program_case(case, PROP, focus_kinds=("invalid", "resize"))
     inj = case["steps"][case["inject_at"]]
+    at = [int(l.split(":")[1]) for l in r["labels"] if l.startswith("foreign-at:")]
+    if at and min(at) > case["inject_at"] and inj.get("k") == "invalid":
+        # "... and the program can continue as if the call had not been made": a continuation step failed the
+        # oracle of its own property. If the same program without the refused request passes, the refused request
+        # is what broke it.
+        twin = dict(case, steps=[s_ for i, s_ in enumerate(case["steps"]) if i != case["inject_at"]])
+        r2 = run_program_case(twin, PROP, focus_kinds=("invalid", "resize"))
+        if not any(l.startswith("foreign-at:") for l in r2["labels"]):
+            what = [l for l in r["labels"] if l.startswith(("abandoned-after-foreign", "continued-with-history"))][:1]
+            raise Violation("continuation-broken-by-rejected-call",
+                            f"after the refused request '{inj.get('fault')}' (step {case['inject_at']}) step {min(at)} {case['steps'][min(at)].get('k')} fails its oracle "
+                            f"({what[0] if what else ''}); the same program without the refused request passes every oracle",
+                            dict(action="invalid", fault=inj.get("fault"), what="continuation"))
     r["key"] = (r["key"] or "") + str([inj.get("fault", "shrink"), inj.get("mode"), inj.get("entry")])
     return r
